@@ -98,6 +98,7 @@ func TestC01(t *testing.T) {
 		Col.MarkExhaustive("every registered key of the 18 pinned discriminator tables (226) with a canonical body")
 	})
 	RunProps(t, rpC01(MyTypes()))
+	t.Run("volume", func(t *testing.T) { runVolume(t, "C01") })
 }
 
 func rpC01(types []string) (out []RProp) {
